@@ -23,13 +23,22 @@
 (*   m[u + off_i] += p_ij (b - l)      (second pass, action AddUpper)      *)
 (* The property (MassConserved, MeanConserved, InRange, NonNeg) is stated  *)
 (* on the result, independently of this recursion.                         *)
+(*                                                                         *)
+(* Supports that are not aligned with the origin (v_min not a multiple of  *)
+(* delta_z: v_min = (vmin + sh/Q) delta_z) are the image of this grid under*)
+(* the translation  z -> z + sh/Q,  r -> r + (sh/Q)(1 - (1-d) gamma^n):    *)
+(* ShiftCovariant states that the index quantity b -- the only thing the   *)
+(* projection depends on besides p -- is the same for the translated input,*)
+(* so the conformance replay may (and does) run the cases on translated    *)
+(* and rescaled supports with the same expected result.                    *)
 (***************************************************************************)
 EXTENDS Integers, Sequences, FiniteSets, TLC
 
 CONSTANTS Shapes,   \* set of [N, vmin, B, pvals, sums, rgrid]: input grids explored by Init
           Gs,       \* discounts gamma^n explored, in units of 1/Q
           Q,        \* denominator of rewards / discounts / target atoms
-          PDen      \* denominator of source probabilities
+          PDen,     \* denominator of source probabilities
+          Shifts    \* translations of the support explored by ShiftCovariant: sh/Q (units of delta_z), sh \in Shifts
 
 VARIABLES N, vmin, B, gq, inp,   \* the input: inp[i] = [p |-> <<p_1..p_N>>, rq |-> reward*Q, d |-> 0/1], i \in 1..B
           bq, lo, up,            \* flattened b (units 1/Q), lower and upper atom index of every element
@@ -206,6 +215,14 @@ RECURSIVE Handed(_)
 Handed(e) == IF e < 0 THEN 0
              ELSE (IF DoneLower(e) THEN WLower(e) ELSE 0) + (IF DoneUpper(e) THEN WUpper(e) ELSE 0) + Handed(e - 1)
 StepMass == Computed => SumRange(m, 0, B * N - 1) = Handed(B * N - 1)
+\* Translation covariance (units 1/Q^2): support z_j + sh/Q, reward r + (sh/Q)(1 - (1-d) gamma^n)
+ZS(j, sh)     == Q * (vmin + j) + sh                                               \* translated atom j      (units 1/Q)
+RS(i, sh)     == Q * inp[i + 1].rq + sh * (Q - (1 - inp[i + 1].d) * gq)           \* translated reward      (units 1/Q^2)
+ClipS(x, sh)  == IF x < Q * ZS(0, sh) THEN Q * ZS(0, sh) ELSE IF x > Q * ZS(N - 1, sh) THEN Q * ZS(N - 1, sh) ELSE x
+TzS(i, j, sh) == ClipS(RS(i, sh) + (1 - inp[i + 1].d) * gq * ZS(j, sh), sh)       \* translated target atom (units 1/Q^2)
+BS(i, j, sh)  == TzS(i, j, sh) - Q * ZS(0, sh)                                     \* (Tz - v_min)/delta_z   (units 1/Q^2)
+ShiftCovariant == phase = "index" => \A sh \in Shifts : \A i \in Rows : \A j \in Atoms :
+                    BS(i, j, sh) = Q * (Tz(i, j) - Q * vmin)
 \* the one-step form used for dumping cases is the same function as the step-by-step passes
 RunAllSame == phase = "done" => m = Projection
 
